@@ -562,6 +562,17 @@ where
             ));
         }
 
+        // Operations are expected in causal order: every claimed dependency needs to be known,
+        // otherwise the state the author claims to have seen can't be re-built.
+        let missing: Vec<OP> = operation
+            .dependencies()
+            .into_iter()
+            .filter(|dependency| !y.inner.operations.contains_key(dependency))
+            .collect();
+        if !missing.is_empty() {
+            return Err(GroupCrdtInnerError::StatesNotFound(missing).into());
+        }
+
         // Adding a group as a manager of another group is currently not
         // supported.
         //
@@ -636,9 +647,21 @@ where
             ));
         }
 
+        // Only a "create" action introduces a group, any other action on a group which does not
+        // exist at the claimed dependencies is invalid.
+        let current_state = temp_y.inner.current_state();
+        if !operation.action().is_create() && !current_state.contains_key(&operation.group_id()) {
+            return Err(GroupCrdtError::StateChangeError(
+                operation.id(),
+                GroupMembershipError::UnrecognisedActor(GroupMember::Individual(
+                    operation.author(),
+                )),
+            ));
+        }
+
         // Apply the operation onto the temporary state.
         let result = apply_action(
-            temp_y.inner.current_state(),
+            current_state,
             operation.group_id(),
             operation.id(),
             operation.author(),
